@@ -560,17 +560,39 @@ WARNING_TEXT = "Warning: A successor has modified the shared dicts"
 @op
 def lod_deepcopy(inp, W):
     data = inp["data"]
+    nested = inp.get("nested")
+    if nested:
+        # item values that are containers: a mutable object inside a tuple, a list, a dict inside a dict
+        for item in data:
+            i = item["id"]
+            if nested == "tuple": item["t"] = ({"y": i},)
+            elif nested == "list": item["t"] = [[i]]
+            else: item["t"] = {"d": {"y": i}}
     before = [dict(x) for x in data]
     table = inp["values"]
-    copy = data.deepcopy()
+    copy = data.deepcopy() if inp.get("how", "method") == "method" else __import__("copy").deepcopy(data)
+    if nested:
+        import copy as _c
+        snapshot = [_c.deepcopy(item["t"]) for item in (data if inp["edit"] == "copy" else copy)]
+        for item in (copy if inp["edit"] == "copy" else data):
+            t = item["t"]
+            if nested == "tuple": t[0]["y"] = -1
+            elif nested == "list": t[0].append(-1)
+            else: t["d"]["y"] = -1
+        res_nested = [item["t"] for item in (data if inp["edit"] == "copy" else copy)] == snapshot
+        for item in list(data) + list(copy):
+            item.pop("t", None)
+        for b in before: b.pop("t", None)
     if inp["edit"] == "copy":
         edited = copy.modify(k=lambda item: table[item["id"]])
         untouched = data
     else:
         edited = data.modify(k=lambda item: table[item["id"]])
         untouched = copy
-    return {"before": before, "untouched": [dict(x) for x in untouched], "edited": [dict(x) for x in edited],
-            "copy_obsolete": bool(list.__getattribute__(copy, "_obsolete")), "data_obsolete": bool(list.__getattribute__(data, "_obsolete"))}
+    res = {"before": before, "untouched": [dict(x) for x in untouched], "edited": [dict(x) for x in edited],
+           "copy_obsolete": bool(list.__getattribute__(copy, "_obsolete")), "data_obsolete": bool(list.__getattribute__(data, "_obsolete"))}
+    if nested: res["nested_untouched"] = bool(res_nested)
+    return res
 
 SHARING = ["copy", "filter", "sort", "head", "tail", "slice", "reverse", "unique", "add", "extend", "append", "semi_join",
            "anti_join", "drop_na", "filter_out", "mul"]
@@ -822,7 +844,7 @@ def _shift(v):
     """a user-supplied 'type' (any callable is accepted by the readers): distinguishable and value-preserving"""
     return v + "!" if isinstance(v, str) else v + 1000
 
-_RESTRICT_TYPES = {"float": float, "shift": _shift}
+_RESTRICT_TYPES = {"float": float, "shift": _shift, "str": str}
 
 @op
 def read_restrict(inp, W):
@@ -978,6 +1000,16 @@ def _plain(v):
 
 # ---------------------------------------------------------------------------- C13 conversions
 
+def _back_dtypes(inp, data):
+    """dtypes= for the way back: the original dtype of every string / float column (the natural way to ask for the same frame)"""
+    if not inp.get("back_dtypes"): return {}
+    m = {}
+    for name in data.colnames:
+        col = data[name]
+        if col.is_string(): m[name] = str
+        elif col.is_float(): m[name] = float
+    return {"dtypes": m}
+
 @op
 def df_convert(inp, W):
     """data frame -> ListOfDicts / JSON text -> data frame"""
@@ -1005,11 +1037,11 @@ def df_convert(inp, W):
                 return default(v)
             records = [{k: leaf(v) for k, v in dict(x).items()} for x in value]
             with stubs.patched(m2, "json", stubs.JsonStub(m2.json, records)):
-                back = di.DataFrame.from_json(text)
+                back = di.DataFrame.from_json(text, **_back_dtypes(inp, data))
             return {"mid": records, "back": back, "recv": data}
         import json
         text = data.to_json()
-        return {"mid": json.loads(text), "back": di.DataFrame.from_json(text), "recv": data}
+        return {"mid": json.loads(text), "back": di.DataFrame.from_json(text, **_back_dtypes(inp, data)), "recv": data}
     raise ValueError(leg)
 
 class _FakeSeries:
